@@ -117,6 +117,9 @@ structure PollState where
   mods : List Mod
   toPoll : Option (List Entry)         -- `none`: `()` / `[]` (falsy);  `some l`: a live iterator with `l` left
   stamp : Nat → Nat → Nat              -- `pobj.timestamp`
+  /-- ghost (never read by the loop): the latest refresh of a parameter so far — the largest of the time stamps
+  it received and of the start times of the poller's `read_*` calls for it -/
+  refreshed : Nat → Nat → Nat
 
 /-- `wait_time = 999` in ticks is a parameter of the model (generated from the source) -/
 structure Consts where
@@ -133,8 +136,12 @@ def updAt (f : Mod → Mod) : Nat → List Mod → List Mod
 def setStamp (st : Nat → Nat → Nat) (m p v : Nat) : Nat → Nat → Nat :=
   fun m' p' => if m' = m ∧ p' = p then v else st m' p'
 
+/-- ghost bookkeeping: parameter `(m, p)` was refreshed at time `v` -/
+def bump (r : Nat → Nat → Nat) (m p v : Nat) : Nat → Nat → Nat :=
+  fun m' p' => if m' = m ∧ p' = p then Nat.max (r m' p') v else r m' p'
+
 def applyTouch (σ : PollState) (t : Touch) : PollState :=
-  { σ with stamp := setStamp σ.stamp t.m t.p t.stamp }
+  { σ with stamp := setStamp σ.stamp t.m t.p t.stamp, refreshed := bump σ.refreshed t.m t.p t.stamp }
 
 def applyTouches (ts : List Touch) (σ : PollState) : PollState := ts.foldl applyTouch σ
 
@@ -192,6 +199,11 @@ def runCall (env : Env) (σ : PollState) : PollState :=
   let k := σ.nCall
   applyExts (env.ext k) (applyTouches (env.touch k) { σ with clock := σ.clock + env.dur k, nCall := k + 1 })
 
+/-- ghost bookkeeping at the start of a call: a `read_p` of module `m` refreshes `(m, p)` now -/
+def noteRead (σ : PollState) (m : Nat) (f : Fn) : PollState :=
+  { σ with refreshed := fun m' p' => if f = Fn.read p' ∧ m' = m then Nat.max (σ.refreshed m' p') σ.clock
+                                      else σ.refreshed m' p' }
+
 structure CallRes where
   σ : PollState
   ev : Event
@@ -200,7 +212,7 @@ structure CallRes where
 /-- `mobj.callPollFunc(f)` in the loop (`raise_com_failed=False`): 673-695, every `Exception` ends here.
 The event and the successor state do not depend on the outcome. -/
 def call (env : Env) (σ : PollState) (m : Nat) (f : Fn) : CallRes :=
-  ⟨runCall env σ, ⟨σ.clock, m, f, env.dur σ.nCall⟩, env.out σ.nCall⟩
+  ⟨runCall env (noteRead σ m f), ⟨σ.clock, m, f, env.dur σ.nCall⟩, env.out σ.nCall⟩
 
 /-- earliest due time of any enabled module, capped (`wait_time = min(...)` is `wakeAt - now`) -/
 def wakeAt (c : Consts) (now : Nat) : List Mod → Nat
